@@ -173,6 +173,8 @@ impl Members {
         {
             // We check which range-bucket the RTT is
             // contained in, then update the stored index
+            // (an average outside of every bucket means no ring)
+            state.ring = None;
             for (ring, n) in RING_BUCKETS.iter().enumerate() {
                 if n.contains(&avg) {
                     state.ring = Some(ring as u8);
